@@ -514,6 +514,66 @@ def cand_edited(case):
 
 
 @st.composite
+def mixed_use_cases(draw, tier):
+    """The combined classes of the README (offline and online monitor in one object) used both ways on one object:
+    evaluate() then update()s, or update()s then evaluate()."""
+    dense = draw(st.booleans())
+    base = DENSE_PAST if dense else DT_PAST
+    f, vs = draw(F.formulas(base))
+    c = {'kind': 'ct' if dense else 'dt', 'formula': f, 'vars': vs, 'first': draw(st.sampled_from(['evaluate', 'update']))}
+    if dense:
+        c['signals'] = {v: draw(grid_signal(0, max_samples=4)) for v in vs}
+    else:
+        c['trace'] = draw(F.traces(vs, n=draw(st.integers(1, 5))))
+    return c
+
+
+def check_mixed_use(case):
+    f = from_json(case['formula'])
+    vs = [v for v in case['vars'] if v in F.fvars(f)]
+    dense = case['kind'] == 'ct'
+    labels = ['kind:' + case['kind'] + '-combined', 'first:' + case['first']] + feature_labels(f)
+    if not vs:
+        return DISCARD('no-variable', labels)
+    data = data_of(case)
+    if not reference_defined('ct_off' if dense else 'dt_off', f, vs, data):
+        return DISCARD('undefined', labels)
+    text = dense_text(f, Q) if dense else 'out = ' + show(f)
+
+    def offline(spec):
+        if dense:
+            sig = to_time({v: data[v] for v in vs}, Q)
+            return spec.evaluate(*[[v, sig[v]] for v in vs])
+        n = len(data[vs[0]])
+        return spec.evaluate(dict([('time', [float(i) for i in range(n)])] + [(v, list(data[v])) for v in vs]))
+
+    def online(spec):
+        if dense:
+            sig = to_time({v: data[v] for v in vs}, Q)
+            return [spec.update(*[[v, sig[v]] for v in vs])]
+        return [spec.update(i, [(v, data[v][i]) for v in vs]) for i in range(len(data[vs[0]]))]
+    try:
+        want_off = offline(build('ct' if dense else 'dt', text, vs))
+        want_on = online(build('ct' if dense else 'dt', text, vs))
+    except Exception as e:  # noqa
+        return DISCARD('single-use-raises(other lanes):' + type(e).__name__, labels)
+    desc = 'combined class, %s first\nspec: %s\ndata: %s' % (case['first'], text, {v: data[v] for v in vs})
+    try:
+        spec = build('ct' if dense else 'dt', text, vs)
+        if case['first'] == 'evaluate':
+            got_off, got_on = offline(spec), online(spec)
+        else:
+            got_on, got_off = online(spec), offline(spec)
+    except Exception as e:  # noqa
+        o = exc_outcome(e)
+        return FAIL('crash:mixed-use:%s:%s' % (case['kind'], o[1]), desc + '\nraised %s: %s at %s' % (o[1], o[3], o[4]), labels)
+    if got_off != want_off or got_on != want_on:
+        return FAIL('mixed-use-differs:' + case['kind'], desc + '\noffline %r (an object used for this only: %r)\nonline %r (an object used for this only: %r)' % (
+            got_off, want_off, got_on, want_on), labels)
+    return PASS(F.n_temporal(f) >= 1, labels)
+
+
+@st.composite
 def giant_supported_cases(draw, tier):
     """Bounded operators with windows of 200..1100 samples on traces from one sample up to twice the bound (offline: all four
     unary operators and since/until; online: the past ones)."""
@@ -524,7 +584,7 @@ def giant_supported_cases(draw, tier):
     return c
 
 
-LANES = [Lane('sup_giant', giant_supported_cases, check_supported, 80, 800, None), Lane('struct', struct_cases, check_struct, 1200, 15000, cand_struct), Lane('edited', edited_cases, check_edited, 1200, 15000, cand_edited), Lane('recover', lambda tier: recover_cases(tier), check_recover, 800, 8000, cand_supported)]
+LANES = [Lane('mixed_use', mixed_use_cases, check_mixed_use, 1000, 10000, None), Lane('sup_giant', giant_supported_cases, check_supported, 80, 800, None), Lane('struct', struct_cases, check_struct, 1200, 15000, cand_struct), Lane('edited', edited_cases, check_edited, 1200, 15000, cand_edited), Lane('recover', lambda tier: recover_cases(tier), check_recover, 800, 8000, cand_supported)]
 for _k in KINDS:
     LANES.append(Lane('sup_' + _k, (lambda k: lambda tier: supported_cases(tier, k))(_k), check_supported, 1500, 20000, cand_supported))
 for _k in UKINDS:
